@@ -162,12 +162,14 @@ theorem C14_default_routes :
 /-! ## Freshness and list atomicity: every number of calls, every schedule, persistent-tier failures -/
 
 /-- WF: the route comes from a facade built by `NewWithSharedCache` (its cache tier is not the persistent
-tier and `cacheTierFor` agrees with it), no call is the internal write-back pseudo-call, and injected
+tier, `cacheTierFor` agrees with it, only pure shared data — never persisted — hands cache errors to the
+caller: all three hold for every `route h key`, see `C14_main`), no call is the internal write-back pseudo-call, and injected
 failures hit the persistent tier only (cache-tier failures are the excluded points, see the witnesses
 `C14_cache_set_fault_witness`, `C14_cache_read_fault_witness`). -/
 structure WF (R : Route) (ops : List Op) (sch : List Entry) : Prop where
   ck : R.ck ≠ .persistent
   aux : R.aux = R.ck
+  pp : R.pe = true → R.passErr = false
   ops : ∀ o ∈ ops, o ≠ .wbk
   faults : ∀ e ∈ sch, e.fault = none ∨ e.fault = some .persistent
 
@@ -179,7 +181,7 @@ theorem C14_fresh (R : Route) (c s p : Option Val) (ops : List Op) (sch : List E
     (wf : WF R ops sch) (hco : coherent R c s p = true) :
     holdsFresh (initVal R c s p) (model .repaired R c s p ops sch).ths
       (model .repaired R c s p ops sch).fget = true :=
-  fresh_main R c s p ops sch wf.ck wf.ops wf.faults hco
+  fresh_main R c s p ops sch wf.ck wf.pp wf.ops wf.faults hco
 
 /-- **List atomicity.** For every set of concurrent AppendToList/RemoveFromList calls on one list, every
 schedule and every placement of persistent-tier failures: after all calls have returned, every element
@@ -189,7 +191,7 @@ theorem C14_list (R : Route) (c s p : Option Val) (ops : List Op) (sch : List En
     (wf : WF R ops sch) (hco : coherent R c s p = true) :
     holdsList (initVal R c s p) (model .repaired R c s p ops sch).ths
       (model .repaired R c s p ops sch).fget = true :=
-  list_main R c s p ops sch wf.ck wf.ops wf.faults hco
+  list_main R c s p ops sch wf.ck wf.pp wf.ops wf.faults hco
 
 /-- **C14.** The whole property, as the runner evaluates it on the implementation's observations, holds
 for the model of the repaired code: all calls, all schedules, persistent-tier failures. -/
@@ -198,7 +200,7 @@ theorem C14_main (h : Storage) (key : String) (hwf : WFStorage h) (c s p : Optio
     (hf : ∀ e ∈ sch, e.fault = none ∨ e.fault = some .persistent) :
     holds (route h key) c s p (model .repaired (route h key) c s p ops sch) = true := by
   have wf : WF (route h key) ops sch :=
-    ⟨route_ck_ne_persistent h key hwf, route_aux_eq_ck h key hwf, hops, hf⟩
+    ⟨route_ck_ne_persistent h key hwf, route_aux_eq_ck h key hwf, route_passErr h key, hops, hf⟩
   simp only [holds, Bool.and_eq_true, Bool.or_eq_true, Bool.not_eq_true']
   refine ⟨C14_route_trace .repaired h key hwf c s p ops sch, ?_⟩
   cases hco : coherent (route h key) c s p with
@@ -260,7 +262,7 @@ persistent-tier failure. -/
 example : WF (route (defaultStorage true false) "tunnox:user:k1") [.get, .set (.str 5) 0, .del]
     [⟨0, none⟩, ⟨1, some .persistent⟩, ⟨2, none⟩, ⟨0, none⟩, ⟨2, none⟩, ⟨0, none⟩] :=
   ⟨route_ck_ne_persistent _ _ (defaultStorage_wf _ _), route_aux_eq_ck _ _ (defaultStorage_wf _ _),
-   by decide, by decide⟩
+   route_passErr _ _, by decide, by decide⟩
 
 /-- `coherent` holds for the cache-miss situation the defect needs (cache empty, value persisted). -/
 example : coherent (route (defaultStorage true false) "tunnox:user:k1") none none (some (.str 1)) = true := by
